@@ -348,9 +348,19 @@ def run(ctx):
             except Exception as e:  # a pattern the compilers refuse is a finding of its own
                 ctx.reject("compile-%s" % text, "compiler refused a pattern of the rule language: %r" % e, {"text": text}, None)
                 continue
+            # an exception line of a filter ACL (`!row`, compiled with allow_ignore as --filter-acl does) is the same pattern: it
+            # recognises its line and the negated form of its line like any other rule
+            ign = None
+            if pi % 3 == 0:
+                try:
+                    ign = list(compile_acl_text("!" + text + "\n", vend, allow_ignore=True)["local"].values())[0]
+                except Exception as e:
+                    ctx.reject("compile-ign-%s" % text, "compiler refused an exception line of a filter ACL: %r" % e, {"text": text}, None)
             for row in rnd.sample(rows, 12 if quick else 60):
                 for kind, c in comp.items():
                     emit(kind, p, False, prefix, row, observe(kind, text, p, False, prefix, row, compiled=c), "rb")
+                if ign is not None:
+                    emit("acl", p, False, prefix, row, observe("acl", text, p, False, prefix, row, compiled=ign), "rbign")
             # the same rule declared case-insensitive (%ignore_case): matching folds case, the key and the removal command keep the
             # words of the line; rules with several placeholders included
             ncap = sum(1 for t in p if t["t"] in ("star", "tilde") or (t["t"] == "set" and t.get("cap")))
